@@ -10,6 +10,7 @@ pub trait DynSkein {
     fn upd(&mut self, data: &[u8]);
     fn fin(&self) -> Vec<u8>;
     fn finreset(&mut self) -> Vec<u8>;
+    fn finreset2(&mut self) -> Vec<u8>;
     fn rst(&mut self);
     fn dup(&self) -> Box<dyn DynSkein>;
     fn setctr(&mut self, n: u64);
@@ -36,6 +37,10 @@ macro_rules! imp {
                 let mut out = GenericArray::<u8, N>::default();
                 FixedOutput::finalize_into_reset(self, &mut out);
                 out.to_vec()
+            }
+            fn finreset2(&mut self) -> Vec<u8> {
+                // digest 0.9 `Digest::finalize_reset`: finalizes a clone, then resets
+                digest::Digest::finalize_reset(self).to_vec()
             }
             fn rst(&mut self) {
                 Reset::reset(self);
@@ -156,6 +161,22 @@ pub fn step(st: &mut St, toks: &[&str]) -> String {
         }
         // C17: feed `nbytes` bytes (byte i = pat_byte(seed, i mod 2^20)) through the real `update`
         // in 1 MiB calls
+        // one single `update` call with `nbytes` bytes (byte i = pat_byte(seed, i mod 2^20))
+        ["skein", "bigupd", slot, nbytes, seed] => {
+            let k = slot!(slot);
+            match (nbytes.parse::<u64>(), seed.parse::<u64>()) {
+                (Ok(n), Ok(sd)) => {
+                    let chunk = pat_bytes(sd, 1 << 20);
+                    let mut big = Vec::with_capacity(n as usize);
+                    while big.len() < n as usize {
+                        let c = (n as usize - big.len()).min(chunk.len());
+                        big.extend_from_slice(&chunk[..c]);
+                    }
+                    update(st, k, &big)
+                }
+                _ => "bad-op".into(),
+            }
+        }
         ["skein", "stream", slot, nbytes, seed] => {
             let k = slot!(slot);
             match (nbytes.parse::<u64>(), seed.parse::<u64>()) {
@@ -213,10 +234,10 @@ pub fn step(st: &mut St, toks: &[&str]) -> String {
                 None => "bad-op".into(),
             }
         }
-        ["skein", "finreset", slot] => {
+        ["skein", op @ ("finreset" | "finreset2"), slot] => {
             let k = slot!(slot);
             let r = match st.slots.get_mut(&k) {
-                Some(h) => guard(|| h.finreset()),
+                Some(h) => guard(|| if *op == "finreset" { h.finreset() } else { h.finreset2() }),
                 None => return "bad-op".into(),
             };
             match r {
